@@ -139,7 +139,7 @@ class RangeNode(OperandNode):
         return self.tvalue
 
     def full_address(self, context):
-        addr = self.address.replace('$', '')
+        addr = utils.strip_absolute_markers(self.address)
         if '!' not in addr:
             addr = f'{context.sheet}!{addr}'
         return addr
